@@ -579,6 +579,7 @@ func scoreComparedStrictly(p *packages.Package, fd *ast.FuncDecl, call *ast.Call
 // S-RUNS: RecordPattern / RecordPatternInReverse folded as whole functions against the run-length model
 func checkRunsWhole(c *Ctx, r *Report) {
 	r.Rule("S-RUNS", "RecordPattern(row, start, counters) returns exactly the lengths of the successive same-colour runs from start (the last one may end with the row) or NotFound when the row ends first; RecordPatternInReverse(row, start, counters) returns the len(counters) runs that precede the run containing start, or NotFound unless a further run lies to their left: both functions are folded (bounded unrolling over a model row) on every row of 1..8 pixels, every start and 1..4 counters, and compared with the run-length model; no pixel outside the row is read", 2)
+	r.DecidedBy("M-RECORD", "S-RUNS", "both functions folded on every row of 1..8 pixels, every start and 1..4 counters against the run-length model")
 	maxLen := 8
 	if c.Tier == "thorough" {
 		maxLen = 11
